@@ -15,7 +15,11 @@ rows of those files, decide:
            the bindings of one call are listed (bindings of different element widths included)
   filterTrace      = rows of the input whose point occurs (as a prefix) in the filter
   _combineTraces   = stable merge by iteration stamp (read first on ties)
-  directory listing before/after every model call (temporary files removed)
+  directory listing before/after every model call (temporary files removed), also when the trace dictionary
+           holds entries that no binding of the call names (nothing is charged to those)
+  capacity = a quantity, not a spelling: finite capacities are handed over as int or float bits, the unbounded
+           one as float("inf") / math.inf / an int or float with room for every access / an int beyond any machine
+           word; all are judged by the same oracles, and two spellings of unbounded must report the same
 """
 import itertools
 import math
@@ -47,7 +51,17 @@ SPEC = {
              "traces recorded by Metrics from Z_MN = A_MK * B_KN (Gustavson), incl. "
              "populate read/write traces with insertion shifts, multi-binding runs with per-binding element widths and "
              "one re-listing of the bindings; (v) filterTrace and _combineTraces on random and "
-             "real traces.  Non-trivial = some line is touched at least twice (model cases) / the filter keeps "
+             "real traces.  Capacities: a finite capacity of c lines is handed over as int bits or as the same "
+             "number of float bits (e.g. 96.0), with or without a spare half line; the unbounded one rotates over "
+             "float('inf'), math.inf, an int / a float with room for every access of the run, and an int beyond any "
+             "machine word (all judged by the same oracles: fills of the simulator / optimum at `every line fits`, zero "
+             "overflows, no more fills than at the finite capacities); in every 6th case the unbounded run is repeated "
+             "in another spelling and must report the same.  Trace dictionaries: in 40% of the random cases of (ii)/(iii) "
+             "and 30% of the runs of (iv) the dictionary also holds 1-3 entries that no binding of the call names (the "
+             "other type of a bound rank, another rank of a bound tensor, a tensor not bound at all and possibly "
+             "traced one loop rank deeper than any binding; in (iv) the dictionary of the whole kernel), listed before "
+             "or after the bound ones: same oracles, nothing charged to them, same directory listing afterwards.  "
+             "Non-trivial = some line is touched at least twice (model cases) / the filter keeps "
              "and drops at least one row / both merged files hold rows; distinct = distinct case description."),
     "shards": {"quick": 16, "thorough": 16},
     "budget_s": {"quick": 0, "thorough": 900},
@@ -57,12 +71,20 @@ SPEC = {
                              "listing_checked": 40000, "filter_calls": 600, "combine_calls": 300, "kernel_cases": 150,
                              "lineperm_checked": 1200, "multi_binding_calls": 6000, "staging_writes_seen": 4000,
                              "relisted_runs": 1000, "listing_order_checked": 2500, "mixed_width_cases": 300,
-                             "mixed_width_out_of_loop_order_runs": 300},
+                             "mixed_width_out_of_loop_order_runs": 300,
+                             "unbounded_as_float_inf": 6000, "unbounded_as_finite_number": 9000,
+                             "float_capacity_calls": 15000, "unbounded_form_pairs": 1500,
+                             "cases_with_unbound_trace_entries": 500, "calls_with_unbound_trace_entries": 6000,
+                             "kernel_whole_dictionary_runs": 150},
                    "thorough": {"evaluations": 100000, "oracle_evals": 4000000, "model_calls": 400000,
                                 "fnu_checked": 200000, "optimum_checked": 50000, "kernel_cases": 2000,
                                 "filter_calls": 8000, "combine_calls": 4000, "relisted_runs": 10000,
                                 "listing_order_checked": 25000, "mixed_width_cases": 3000,
-                                "mixed_width_out_of_loop_order_runs": 3000}},
+                                "mixed_width_out_of_loop_order_runs": 3000,
+                                "unbounded_as_float_inf": 40000, "unbounded_as_finite_number": 60000,
+                                "float_capacity_calls": 100000, "unbounded_form_pairs": 10000,
+                                "cases_with_unbound_trace_entries": 5000, "calls_with_unbound_trace_entries": 60000,
+                                "kernel_whole_dictionary_runs": 1500}},
     "assumptions": [
         "well-formed trace file = header + rows whose iteration stamps strictly increase inside the file; a read "
         "row and a write row (different files) may share a stamp, the read is first",
@@ -90,6 +112,13 @@ SPEC = {
         "every binding has its own elements-per-line = line size // its element width (the statement's "
         "`line-granular positions` are per binding); the line size is at least the widest element",
         "overflow counts are not part of the statement; only `unbounded capacity -> 0 overflows` is looked at",
+        "a capacity is a number of bits: an int, a float with an integral value, float('inf') / math.inf for "
+        "`unbounded`; what it holds is floor(capacity / line size) whole lines.  The spelling of the number is not an "
+        "input of the statement",
+        "the trace dictionary may describe more than the call binds (each buffer level is handed the dictionary of "
+        "the whole kernel): entries whose (tensor, rank, type) no binding names come from the same loop nest, their "
+        "tensors have a format with a non-zero element width; they must not be charged (a zero entry or no entry "
+        "for them in the result are both accepted) and their temporary files must go like all others",
     ],
 }
 
@@ -831,6 +860,25 @@ def _features(case, facts, listing=None):
     return multi, staging, shift, same_rank, foreign
 
 
+def _unbounded_again(mon, which, fn, bindings, ctx, traces, line_sz, loop_ranks, inf_bits, form, first_bits, first, tmp, tag):
+    """Unbounded is unbounded however it is written down: the same run with the unbounded capacity in another
+    form (infinite float <-> number with room for every access) must report what the first form did."""
+    alt_bits, _ = _capacity(mon, None, line_sz, inf_bits, form)
+    ok, res = _call(mon, which, lambda: fn(bindings, ctx["formats"], dict(traces), alt_bits, line_sz, loop_ranks=loop_ranks),
+                    tmp, ctx["keep"])
+    mon.count("model_calls")
+    mon.count("unbounded_form_pairs")
+    if not ok:
+        mon.violation(f"{which}:raised:{type(res).__name__}:unbounded-capacity-forms-disagree{tag}",
+                      f"{which} raised {type(res).__name__}: {res} at capacity {alt_bits!r} bits but returned {first} at "
+                      f"capacity {first_bits!r} bits")
+        return
+    again = (_settle_unbound(mon, which, res[0], ctx, tag), res[1])
+    mon.check(again == first, f"{which}:unbounded-capacity-forms-disagree{tag}",
+              f"{which} reported {first} at capacity {first_bits!r} bits and {again} at capacity {alt_bits!r} bits; both "
+              f"have room for everything")
+
+
 def _run_model_case(case, mon, tmp, files=None, tagx=""):
     line_sz = case["line_sz"]
     order = case["order"]
@@ -888,8 +936,9 @@ def _run_model_case(case, mon, tmp, files=None, tagx=""):
                     per.append(_buffet_model(f["acc"], end))
                 exp = _expected_dict(case, per, line_sz)
                 # buffet traffic does not depend on the capacity: later listings are run at one capacity
-                for cj, cap in enumerate(case["buffet"]["caps"] if full else case["buffet"]["caps"][-1:]):
-                    cap_bits, _ = _capacity(mon, cap, line_sz, inf_bits, capform + cj + lno)
+                for cap in (case["buffet"]["caps"] if full else case["buffet"]["caps"][-1:]):
+                    cj = case["buffet"]["caps"].index(cap)
+                    cap_bits, _ = _capacity(mon, cap, line_sz, inf_bits, capform + cj)
                     ok, res = _call(mon, "buffetTraffic",
                                     lambda: Traffic.buffetTraffic(bindings, ctx["formats"], dict(traces), cap_bits,
                                                                   line_sz, loop_ranks=loop_ranks()), tmp, ctx["keep"])
@@ -922,6 +971,9 @@ def _run_model_case(case, mon, tmp, files=None, tagx=""):
                         mon.check(overflows == 0, f"buffetTraffic:overflow-at-unbounded-capacity{tag}",
                                   f"buffetTraffic reported {overflows} overflows at capacity {cap_bits!r} bits, which has "
                                   f"room for every access")
+                        if full and capform % 6 == 0:
+                            _unbounded_again(mon, "buffetTraffic", Traffic.buffetTraffic, bindings, ctx, traces, line_sz,
+                                             loop_ranks(), inf_bits, capform + cj + 1, cap_bits, (got, overflows), tmp, tag)
                     ref = first_run.get(("buffet", tuple(evict), cap))
                     if not full and ref is not None:
                         mon.count("listing_order_checked")
@@ -949,8 +1001,8 @@ def _run_model_case(case, mon, tmp, files=None, tagx=""):
                 pick = sorted({lno % len(caps), (lno + 2) % len(caps)})
                 caps = [caps[j] for j in pick]
             for cap in caps:
-                cap_bits, cap_lines = _capacity(mon, cap, line_sz, inf_bits, capform + case["cache"]["caps"].index(cap) + lno,
-                                                frac=case["cache"].get("frac"))
+                cj = case["cache"]["caps"].index(cap)
+                cap_bits, cap_lines = _capacity(mon, cap, line_sz, inf_bits, capform + cj, frac=case["cache"].get("frac"))
                 if cap_lines is None:
                     cap_lines = inf_bits // line_sz         # room for every access of the run
                 ok, res = _call(mon, "cacheTraffic",
@@ -1007,6 +1059,9 @@ def _run_model_case(case, mon, tmp, files=None, tagx=""):
                     mon.check(overflows == 0, f"cacheTraffic:overflow-at-unbounded-capacity{tag}",
                               f"cacheTraffic reported {overflows} overflows at capacity {cap_bits!r} bits, which has room "
                               f"for every line")
+                    if full and capform % 6 == 0:
+                        _unbounded_again(mon, "cacheTraffic", Traffic.cacheTraffic, bindings, ctx, traces, line_sz,
+                                         loop_ranks(), inf_bits, capform + cj + 1, cap_bits, (got, overflows), tmp, tag)
                 if prev is not None and not staging and not shift and not foreign:
                     for t in got:
                         if "read" in got[t] and "read" in prev[1].get(t, {}):
@@ -1265,6 +1320,7 @@ def _run_kernel(case, mon, tmp):
                                "reads": parsed[rd][2] if rd else None, "writes": parsed[wr][2] if wr else None,
                                "files": {"read": parsed[rd][0] if rd else None, "write": parsed[wr][0] if wr else None}})
                 used.add(t)
+            mon.count("kernel_whole_dictionary_runs")
         runs[0] += 1
         listings = [list(range(len(bs)))]
         if len(bs) > 1 and case.get("relist"):
